@@ -104,6 +104,15 @@ CLAIMS = {
         note=TB + "Sem.evalE is the definition of each operator; function families with their own checks: integer/decimal arithmetic (C12), casts (C13), strings/LIKE (C20); float functions are not modelled.",
         technique="Lean proof (vectorised executor = map over logical values for every representation) + nine-context differential against Sem",
         design="5/C05"),
+    "C17": dict(
+        text=("Props/C17.lean about Core/Csv.lean (byte-level state machine of the csv_core reader as configured by DialectOptions, driven like CsvDecoder::decode and finished like CsvReader::poll_pull): "
+              "decode_chunks / run_chunk_independent - decoding any chunking of the bytes (cuts inside quoted fields, between CR and LF, inside code points) equals decoding the whole input; a plain field "
+              "followed by LF yields exactly that one-field record; empty lines are skipped; the last record needs no terminator. Tie: 4000 random/structured byte strings x 8 dialects x random chunk sizes through "
+              "the real CsvDecoder (clear_completed between chunks, empty input at end) must equal the model, and chunked must equal unchunked on the implementation itself; generated files (up to 5000 rows, "
+              "one > 4 MiB) read with read_csv under batch sizes 1..8192 and 1-8 partitions must equal the reader's own inference rules (dialect.rs, schema.rs) applied to the records the model decodes."),
+        note=TB + "csv_core is third-party code modelled by Core/Csv.lean; dialect/header/type inference rules are re-implemented in the driver (tools/c17.py) from dialect.rs/schema.rs; timestamp inference is a TODO in the engine.",
+        technique="Lean proof (chunk independence of the record decoder) + decoder-level correspondence + model-based read_csv oracle",
+        design="5/C17"),
 }
 
 NOT_YET = {
